@@ -107,7 +107,7 @@ def _map(w, f):
 # ---------------------------------------------------------------------------------------------
 # high-precision Kleene iteration for Real / Log least fixed points
 
-def kleene_mp(ir, w=None, digits=50, max_iter=5000, eps_exp=-30):
+def kleene_mp(ir, w=None, digits=50, max_iter=5000, eps_exp=-30, trace=None, rec_nts=None):
     """Kleene iteration in mpmath.  Returns ('finite', val, rho_estimate) when the increment drops
     below 10**eps_exp within max_iter steps, ('divergent', None, None) if some entry exceeds 1e30
     or an infinite weight is reachable, ('undecided', None, None) otherwise."""
@@ -151,6 +151,11 @@ def kleene_mp(ir, w=None, digits=50, max_iter=5000, eps_exp=-30):
                     inc = d
         if big:
             return ('divergent', None, None)
+        if trace is not None:
+            # per iteration: largest increment among the nonterminals of recursive components, and the start value
+            # computed from the previous iterate (used for an amplification-aware error bound)
+            inc_r = max([abs(new[nt][ea] - val[nt][ea]) for nt in (rec_nts if rec_nts is not None else nts) for ea in new[nt]] or [mpf(0)])
+            trace.append((float(inc_r), {ea: float(x) for ea, x in new[ir['start']].items()}))
         val = new
         if prev_inc is not None and prev_inc > 0 and inc > 0:
             ratio = inc / prev_inc
